@@ -34,13 +34,15 @@ RULE = (
     "subscriber, a later connection and the task table are observed."
 )
 ASSUMPTIONS = [
+    "end-to-end shards: a real gunicorn/uvicorn server process tree started from the tree under test (vf/e2e_launch.py: the repository's run_with_gunicorn / run_with_uvicorn; the SQL schema is made with the repository's metadata.create_all because its alembic env.py does not run with the installed SQLAlchemy; the notifier's fixed TCP port 6000 is replaced by a free port), spoken to over loopback TCP with the websockets client; real time, real sleeps",
     "closing the offending connection (ws_close + clean handler exit) is an allowed reaction; raising out of the handler is not",
     "exceptions that stay inside background tasks are counted in the evidence but are only a violation if they stop the connection or its neighbour from being served",
     "LMDB backend over /verif/shim; SQL = SQLite",
 ]
 MIN_NONTRIVIAL = {"quick": 1500, "thorough": 12000}
-REQUIRED_COUNTERS = ["probe.same_connection", "probe.neighbour_push", "probe.neighbour_req", "probe.neighbour_tag_req", "leak_checks", "frames", "stalled.publishes", "stalled.late_connections"]
+REQUIRED_COUNTERS = ["e2e.e2e_probes", "e2e.e2e_registry_dumps", "throttle_sleeps_checked", "probe.same_connection", "probe.neighbour_push", "probe.neighbour_req", "probe.neighbour_tag_req", "leak_checks", "frames", "stalled.publishes", "stalled.late_connections"]
 SHARD_TIMEOUT = {"quick": 600, "thorough": 3200}
+ANSWER_BOUND = 60  # seconds (virtual) a kept-open connection may be made to wait for one answer
 
 
 def deep(n, leaf=1, obj=False):
@@ -353,6 +355,21 @@ async def run_case(backend, cfgname, frames, counters, seed):
         if busy or stray:
             viols.append({"key": "task-leak", "msg": "[%s/%s] tasks still alive after every connection ended: %s %s" % (backend, cfgname, busy[:3], [t.get_name() for t in stray][:3]),
                           "replay": {"backend": backend, "cfg": cfgname, "labels": [l for l, _ in frames][:50]}})
+        # ---- the delay the relay imposes on a connection after refused commands stays bounded -------
+        # (bounded progress for "never stops answering later well-formed commands on a connection it kept
+        # open": the rig records the sleeps the connection handler asks for instead of waiting them out;
+        # no single one may exceed ANSWER_BOUND seconds, the configuration asks for none of its own here)
+        from nostr_relay import web as _web
+
+        slept = getattr(_web.asyncio, "slept", None)
+        if slept is not None:
+            counters["throttle_sleeps_checked"] = counters.get("throttle_sleeps_checked", 0) + len(slept)
+            counters["throttle_longest_sleep"] = max(counters.get("throttle_longest_sleep", 0), max(slept or [0]))
+            if slept and max(slept) > ANSWER_BOUND:
+                viols.append({"key": "throttle/unbounded-delay", "msg": "[%s/%s] after %d refused commands the handler delays each further command of a kept-open connection by %.0f s (longest single delay asked for; bound %d s)"
+                              % (backend, cfgname, sum(1 for x in slept if x), max(slept), ANSWER_BOUND),
+                              "replay": {"backend": backend, "cfg": cfgname, "labels": [l for l, _ in frames][:50], "frames": [t for _, t in frames[:50] if len(t) < 20000]}})
+            del slept[:]
         counters["task_exceptions_observed"] = counters.get("task_exceptions_observed", 0) + len(rig.loop_errors)
         if rig.loop_errors:
             counters.setdefault("task_exception_kinds", [])
@@ -465,6 +482,18 @@ async def run_stalled_reader(backend, counters, seed, nsubs=10, nevents=130):
 
 
 def plan(tier, seed):
+    return _plan(tier, seed) + e2e_plan(tier, seed)
+
+
+def e2e_plan(tier, seed):
+    """shards on a REAL server process tree (vf/e2e.py)"""
+    out = []
+    for i in range(1 if tier == "quick" else 4):
+        out += [{"mode": "e2e", "e2e": "hostile", "backend": b, "seed": seed * 7919 + i} for b in ("sql", "lmdb")]
+    return out
+
+
+def _plan(tier, seed):
     out = []
     count = 450 if tier == "quick" else 6000
     for backend in ("sql", "lmdb"):
@@ -476,6 +505,10 @@ def plan(tier, seed):
 
 
 def run_shard(spec):
+    if spec.get("mode") == "e2e":
+        from .. import e2e_cases
+
+        return e2e_cases.run_e2e_shard(ID, spec)
     r = random.Random(spec["case_seed"])
     counters = {}
     if spec.get("mode") == "stalled":
@@ -517,6 +550,10 @@ def run_shard(spec):
 
 
 def replay(rp, spec):
+    if rp.get("mode") == "e2e":
+        from .. import e2e_cases
+
+        return e2e_cases.run_e2e_shard(ID, rp)
     counters = {}
     if rp.get("mode") == "stalled":
         v, nt = R.run(run_stalled_reader, rp["backend"], counters, rp["seed"])
